@@ -10,7 +10,7 @@ from ipaddress import ip_address, ip_network
 
 import xfrm
 from crypto import RsaPrivateKey, RsaPublicKey
-from message import PayloadID, Proposal, TrafficSelector, Transform
+from message import IkeSaError, PayloadID, Proposal, TrafficSelector, Transform
 
 __author__ = 'Alejandro Perez-Mendez <alejandro.perez.mendez@gmail.com>'
 
@@ -98,7 +98,7 @@ class Configuration(object):
                 self.ike_configurations[(ikeconf.my_addr, ikeconf.peer_addr)] = ikeconf
             except KeyError as ex:
                 raise ConfigurationError(f'Mandatory parameter {ex} missing for connection "{connection_name}"')
-            except (AttributeError, TypeError, ValueError) as ex:
+            except (AttributeError, TypeError, ValueError, ArithmeticError, IkeSaError) as ex:
                 raise ConfigurationError(f'Invalid value in connection "{connection_name}": {ex}')
 
     def _load_ike_conf(self, name, conf_dict, my_addresses):
